@@ -196,6 +196,12 @@ def check_csv(tree, blob, d, rng, fail):
     config = rng.choice([None, blob['config']])
     blob_to_csv(results_blob=blob['results'], taxonomy_tree=tree, output_path=path, confidence_key=ckey,
                 confidence_label=clabel, metadata_path=meta, config=config)
+    verify_csv(path, tree, blob, ckey, clabel, meta, config, fail)
+
+
+def verify_csv(path, tree, blob, ckey, clabel, meta, config, fail):
+    """the CSV file at `path` against the statement of C15, given the taxonomy `tree` of the JSON output"""
+    import cell_type_mapper
     with open(path, newline='') as f:
         text = f.read()
     lines = text.split('\n')
@@ -279,6 +285,114 @@ def check_tree(tree_data, fail):
         fail('tree-roundtrip', 'to_str() -> from_str() changed the tree')
 
 
+RUN_ENTRY = 'cell_type_mapper.cli.from_specified_markers.run_mapping'
+RUN_CLAUSES = ['run: csv-header', 'run: csv-columns', 'run: csv-rows', 'run: hdf5 equals json',
+               'run: embedded taxonomy is the input taxonomy without its cell lists']
+
+
+def _run_level_task(task):
+    """one real mapping run with CSV and HDF5 outputs; -> list of dict(clause, observed, args)"""
+    from bounded import fixture as fx
+    import traceback
+    from cell_type_mapper.taxonomy.taxonomy_tree import TaxonomyTree
+    from cell_type_mapper.utils.output_utils import hdf5_to_blob
+    out = []
+    with fx.scratch() as d:
+        try:
+            world = fx.build_world(d, task['seed'], **task['world'])
+        except BaseException as e:   # noqa
+            return [dict(status='harness-error', error='world build: ' + fx.package_error_text(e) +
+                         traceback.format_exc()[-800:])]
+        h = world.hierarchy
+        variants = [dict()] + [dict(drop_level=lv) for lv in h[:-1]] + ([dict(flatten=True)] if len(h) > 1 else [])
+        for var in variants:
+            for iters in task['iterations']:
+                cfg = dict(var, bootstrap_iteration=iters, csv=True, hdf5=True, n_processors=1, chunk_size=5)
+                args = dict(build_world=dict(seed=task['seed'], **task['world']), config=cfg)
+
+                def fail(clause, observed, _args=args):
+                    out.append(dict(clause='run: ' + clause.split(' [')[0] if not clause.startswith('run: ') else clause,
+                                    status='ok', observed=str(observed)[:500], args=_args))
+                try:
+                    blob, paths = fx.run_mapping_world(world, fx.mapping_config(world, **cfg))
+                except Exception as e:   # noqa
+                    if not fx.escaped_from_package(e):
+                        out.append(dict(clause=RUN_CLAUSES[0], status='harness-error',
+                                        observed=traceback.format_exc()[-900:], args=args))
+                    continue
+                n_before = len(out)
+                try:
+                    tree = TaxonomyTree(data=blob['taxonomy_tree']) if isinstance(blob['taxonomy_tree'], dict) \
+                        else TaxonomyTree.from_str(blob['taxonomy_tree'])
+                    # the embedded taxonomy is the stored (input) taxonomy, cells dropped
+                    if tree.hierarchy != list(h):
+                        fail(RUN_CLAUSES[4], f"hierarchy {tree.hierarchy} != {list(h)}")
+                    else:
+                        for lv in h[:-1]:
+                            got = {n: sorted(tree.children(lv, n)) for n in tree.nodes_at_level(lv)}
+                            want = {n: sorted(k) for n, k in world.spec[lv].items()}
+                            if got != want:
+                                fail(RUN_CLAUSES[4], f"{lv}: {got} != {want}")
+                        if sorted(tree.nodes_at_level(h[-1])) != sorted(world.leaves):
+                            fail(RUN_CLAUSES[4], f"leaves {sorted(tree.nodes_at_level(h[-1]))} != {sorted(world.leaves)}")
+                    single = iters == 1
+                    ckey, clabel = ('avg_correlation', 'correlation_coefficient') if single else \
+                        ('bootstrapping_probability', 'bootstrapping_probability')
+                    verify_csv(paths['csv'], tree, blob, ckey, clabel, paths['json'], blob['config'], fail)
+                    back = hdf5_to_blob(paths['hdf5'])
+                    want = json.loads(json.dumps(blob))
+                    for key in sorted(set(want) | set(back)):
+                        if key == 'results':
+                            continue
+                        if back.get(key) != want.get(key):
+                            fail(RUN_CLAUSES[3], f"{key!r}: hdf5 {str(back.get(key))[:120]} != json {str(want.get(key))[:120]}")
+                    r0, r1 = want.get('results', []), back.get('results', [])
+                    if [c['cell_id'] for c in r0] != [c['cell_id'] for c in r1]:
+                        fail(RUN_CLAUSES[3], 'cell ids differ')
+                    else:
+                        for c0, c1 in zip(r0, r1):
+                            for lv in tree.hierarchy:
+                                if lv not in c1 or not fx.records_equal(c0[lv], c1[lv], 1e-12):
+                                    fail(RUN_CLAUSES[3], f"cell {c0['cell_id']} level {lv}: hdf5 {str(c1.get(lv))[:150]} "
+                                                         f"!= json {str(c0[lv])[:150]}")
+                                    break
+                except Exception:   # noqa
+                    out.append(dict(clause=RUN_CLAUSES[0], status='harness-error',
+                                    observed=traceback.format_exc()[-900:], args=args))
+                if len(out) == n_before:
+                    out.append(dict(clause=RUN_CLAUSES[0], status='ok', observed=None, args=args))
+    return out
+
+
+def run_level(tier, seed, jobs):
+    from bounded import fixture as fx
+    from bounded import c06
+    import traceback
+    quick = tier == 'quick'
+    shapes = ['d3_bal', 'd3_reuse'] if quick else ['d3_bal', 'd3_reuse', 'd3_chain', 'd2_single_child', 'd1_four',
+                                                   'd3_top_single']
+    tasks = [dict(seed=int(seed) + i, world=dict(taxonomy=s, n_query=5, encoding=['dense', 'csr', 'csc'][i % 3]),
+                  iterations=[1, 4]) for i, s in enumerate(shapes)]
+    bound = (f"{len(shapes)} taxonomy shapes x {{plain, every droppable level dropped, flatten}} x bootstrap_iteration "
+             "{1, 4}; 5 query cells; CSV and HDF5 written by the real run and compared with its JSON output")
+    row = fx.new_row(RUN_ENTRY, 'seeded-random', bound, RUN_CLAUSES)
+    try:
+        rows = {c: row for c in RUN_CLAUSES}
+        results = fx.parallel_map(_run_level_task, tasks, jobs)
+        fixed = []
+        for status, val in results:
+            if status == 'ok':
+                for rec in val:
+                    if rec.get('clause') not in rows and 'clause' in rec:
+                        rec['clause'] = RUN_CLAUSES[2] if 'rows' in rec['clause'] else \
+                            RUN_CLAUSES[1] if 'columns' in rec['clause'] else RUN_CLAUSES[0]
+            fixed.append((status, val))
+        c06.collect(rows, fixed, row)
+    except BaseException:   # noqa
+        fx.add_error(row, traceback.format_exc()[-2000:])
+    return fx.finish_row(row)
+
+
 def run(tier='quick', seed=0, jobs=1):
     import sys
     import time
@@ -337,9 +451,11 @@ def run(tier='quick', seed=0, jobs=1):
           'tree': 'cell_type_mapper.taxonomy.taxonomy_tree.TaxonomyTree.to_str+from_str'}
     clauses = {'hdf5': ['hdf5-roundtrip', 'hdf5-failed-run'], 'csv': ['csv-header', 'csv-rows', 'csv-columns'],
                'tree': ['tree-roundtrip']}
-    return [dict(function=fn[n], form='seeded-random over explicit boundary classes', bound=bound,
+    rows = [dict(function=fn[n], form='seeded-random over explicit boundary classes', bound=bound,
                  cases=out[n][0], accepted=out[n][0], distinct=len(out[n][1]), failures=out[n][2],
                  clauses=clauses[n]) for n in ('hdf5', 'csv', 'tree')]
+    rows.append(run_level(tier, seed, jobs))
+    return rows
 
 
 if __name__ == '__main__':
